@@ -139,6 +139,7 @@ main (int argc, char **argv)
     else if (a == "--long-n") { jb.long_n = std::strtoull (v, 0, 10); ++i; }
     else if (a == "--digests") { jb.digests = std::atoi (v) != 0; ++i; }
     else if (a == "--trace") { jb.trace_all = std::atoi (v) != 0; ++i; }
+    else if (a == "--twin") { jb.twin = std::atoi (v) != 0; ++i; }
     else if (a == "--print-hist") { jb.print_hist = std::atoi (v) != 0; ++i; }
     else if (a == "--sigfile") { sigfile = v; ++i; }
     else if (a == "--known")
